@@ -807,6 +807,65 @@ def check_delivery(w, q):
                     idx = [pos[x] for x in firsts]
                     if len(spans) == 1 and len(ss) == 1 and idx != sorted(idx):
                         w.viol(l.at, "C01", "link %d (%r): subscription %r delivered out of acceptance order" % (l.k, l.name, path))
+    # -------- C15 completeness: a NEW non-shared subscription receives, flagged retained, the retained
+    # message of every matching topic, provided they fit in the delivery window.  Judged at the calm
+    # points of the connection that holds the subscription — which may be a later connection of the
+    # same persistent session if the one that subscribed ended before it was served.
+    import bisect as _bs
+    acc_ops = [a[6] for a in w.accepted]
+    for l in w.links:
+        if not l.registered or not getattr(l, "calm_pairs", None) or getattr(l, "foreign_end", None) is not None:
+            continue
+        chain, c = [], l
+        while c is not None:
+            chain.append(c)
+            c = getattr(c, "prev", None) if c.resumed else None
+        chain.reverse()
+        if any(x.notes or getattr(x, "unresolved_fwd", 0) for x in chain):
+            continue
+        qos_fwd_total = sum(1 for x in chain for f in x.fwd if f["qos"] > 0)
+        (d, _i0) = l.calm_pairs[-1]
+        nb = _bs.bisect_left(acc_ops, d)
+        flagged = defaultdict(set)
+        for x in chain:
+            for f in x.fwd:
+                if f["retain"] and f["cursor"] == "-" and f["topic_resolved"] is not None and (x is not l or f["at"] <= d):
+                    flagged[f["topic_resolved"]].add(f["payload"])
+        done = False
+        for xi, x in enumerate(chain):
+            for (path, qos, since, sop) in getattr(x, "new_subs", []):
+                if strip_share(path)[0] is not None or since > nb or (x is l and sop >= d):
+                    continue
+                # still in force at d: not unsubscribed afterwards anywhere in the chain
+                gone = any(pp == path and at >= since for y in chain[xi:] for (pp, at) in getattr(y, "unsubbed", []))
+                if gone or (x is not l and sop > (x.ended if x.ended is not None else 10 ** 9)):
+                    continue
+                # topics holding a retained message at subscription time and ever since (until d)
+                cands = []
+                for tp, hist in w.retained_hist.items():
+                    if not topic_matches(tp, path):
+                        continue
+                    before = [pl for (n, pl) in hist if n < since]
+                    during = [pl for (n, pl) in hist if since <= n < nb]
+                    if before and before[-1] is not None and all(pl is not None for pl in during):
+                        cands.append((tp, set([before[-1]] + during)))
+                if not cands:
+                    continue
+                room = w.cfg["maxout"] if qos == 0 else 100 - qos_fwd_total
+                if len(cands) > room:
+                    w.skips["c15-replay-may-not-fit"] += 1
+                    continue
+                for (tp, vals) in cands:
+                    if not (flagged.get(tp, set()) & vals):
+                        w.viol(d, "C15", "link %d (%r): new subscription %r (made on link %d) never received the retained message of %r (%r) although the connection was drained, owed nothing and the router idle at op %d" % (
+                            l.k, l.name, path, x.k, tp, sorted(vals)[:2], d))
+                        done = True
+                        break
+                w.stats["c15_replay_completeness_checked"] += 1
+                if done:
+                    break
+            if done:
+                break
     # -------- C08: persistent sessions
     for l in w.links:
         if not l.registered or l.notes:
@@ -1020,7 +1079,10 @@ def evaluate(ops, answers):
     # ---- C14: in a history where somebody misbehaved or foreign signals occurred, every alarm
     # about a link that itself behaved well is (also) an isolation failure
     hostile = any(getattr(l, "misbehaved", False) for l in w.links) or any(o.split()[0].startswith("X") for o in ops[: len(answers)])
-    if hostile:
+    # any history with at least two clients: whatever the OTHER clients did (legitimately or not),
+    # a failure towards a client that itself behaved well is an isolation failure as well
+    several = len(set(l.name for l in w.links if l.registered)) >= 2
+    if hostile or several:
         good = {l.k for l in w.links if l.registered and not getattr(l, "misbehaved", False) and getattr(l, "foreign_end", None) is None}
         import re as _re
         extra = []
